@@ -66,6 +66,9 @@ def step (s : State) (op : Op) : State × Ans :=
     | .crashAdv k =>
       let (files, o) := q.crashAdvFiles verifyAll k
       reopenWith q files o
+    | .crashSeg b k =>
+      let (files, o) := q.crashSegFiles b k
+      reopenWith q files o
     | .stat => (some q, q.statAns)
 
 /-- the answers of the model to a list of operations -/
